@@ -13,7 +13,7 @@ EXPLANATION = ("(1) QPACK static table == RFC 9204 Appendix A (99 rows, one shar
                "stream_session.session_id() (= id of the CONNECT stream); (6) SessionRequest::new builds exactly the five pseudo-headers with "
                ":authority == url.authority() and :path == url.path() ++ ('?' ++ query)? (string algebra, any spelling), and Headers::insert / get store and "
                "look up names and values unchanged."
-               ' Also: StaticTable::lookup_index compares names and values by exact equality only (an indexed field line is value-preserving); the request stream is never dropped with a cancelled worker branch (C02-R7). C02-R8: the HEADERS frame is put on the wire whole whatever credit the peer grants: every write_frame layer awaits the layer below on the given frame, Frame::write_async emits [kind, len, payload] through PutVarint/PutBuffer, whose poll loops re-issue poll_write on the unwritten rest until the field is complete. C02-R9: the accessors through which the server application reads the request (endpoint::SessionRequest::authority/path/origin/user_agent/headers -> stored proto request -> Headers::get) and the option builders through which the client is given url and fields (ConnectOptions / ConnectRequestBuilder / IntoConnectOptions, accept / accept_with_headers) forward unchanged. C02-R10/R11: the session hand-off channel is cross-wired (each endpoint\'s sender feeds the other\'s receiver); the server accept pipeline awaits SETTINGS, then the session stream, and wraps exactly that stream, connection and driver into the SessionRequest it hands out.')
+               ' Also: StaticTable::lookup_index compares names and values by exact equality only (an indexed field line is value-preserving); the request stream is never dropped with a cancelled worker branch (C02-R7). C02-R8: the HEADERS frame is put on the wire whole whatever credit the peer grants: every write_frame layer awaits the layer below on the given frame, Frame::write_async emits [kind, len, payload] through PutVarint/PutBuffer, whose poll loops re-issue poll_write on the unwritten rest until the field is complete. C02-R9: the accessors through which the server application reads the request (endpoint::SessionRequest::authority/path/origin/user_agent/headers -> stored proto request -> Headers::get) and the option builders through which the client is given url and fields (ConnectOptions / ConnectRequestBuilder / IntoConnectOptions, accept / accept_with_headers) forward unchanged. C02-R10/R11: the session hand-off channel is cross-wired (each endpoint\'s sender feeds the other\'s receiver); the server accept pipeline awaits SETTINGS, then the session stream, and wraps exactly that stream, connection and driver into the SessionRequest it hands out. C02-R12: for every host kind of the URL, connect hands quinn the host\'s own socket address and the host\'s own text (domain / v4 / v6 without URL brackets) as TLS server name.')
 NOT_DECIDED = ["decode(encode(h)) == h for arbitrary strings (Huffman coder is an external crate; value-level law)", "URL parsing (url crate)"]
 TRUSTED = ["rustc MIR / const evaluation", "spec/qpack_static.json", "url::Url accessors"]
 
